@@ -4,12 +4,52 @@
 def setup(register, COMMON_TB):
     register(
         "C09", coq="C09", pkg="./internal/framework/status/", test="TestVerifC09",
+        extra=[dict(pkg="./internal/framework/runnables/", test="TestVerifC09Wire")],
         rule="sequential schedules (size ramps with the index) and concurrent schedules (2-3 submitter goroutines racing one "
              "Enable, randomly delayed client writes); non-trivial = has an Enable that flushed at least one saved request "
-             "and at least 4 invocations; distinct = distinct (schedule, observed log)",
+             "and at least 4 invocations; distinct = distinct (schedule, observed log). "
+             "Second part (TestVerifC09Wire, evaluated by C09/Wire.v): one case for internal/mode/static/manager.go of the tree "
+             "under test - every mgr.Add(e) in the file resolved into the chain of runnable types of e, the real object of that "
+             "shape built from the real types of package runnables and asked controller-runtime's group rule "
+             "(leader group unless it is a manager.LeaderElectionRunnable whose NeedLeaderElection() is false) and started once "
+             "to count the calls of the enable function; plus which identifier eventHandlerConfig gets as statusUpdater, the "
+             "function whose call defines it, and every other use of a selector .Enable in the file - and synthetic chains over "
+             "the real types (every nesting of Leader/LeaderOrNonLeader up to depth 3 over EnableAfterBecameLeader, CronJob, "
+             "*events.EventLoop, manager.RunnableFunc, then random nestings of depth 4-9) that exercise needs_leader/start_invokes; "
+             "non-trivial there = the manager.go case and synthetic chains of at least 3 elements",
         trusted_base=COMMON_TB + [
             "modelled, not verified: sync.Mutex makes UpdateGroup/Enable atomic; the controller-runtime fake client stands for the API server",
-            "leader election wiring (Enable registered as a leader-only runnable) is checked by the C01/C17 handler harness, not proved",
+            "modelled, not verified (coq/C09/Wire.v mstep): controller-runtime v0.20.1 starts the LeaderElection runnable group only "
+            "from OnStartedLeading (or at Start when leader election is disabled, which the model treats as an immediate Elected), "
+            "every other group from Start, and a lost lease ends the process; the group rule itself "
+            "(pkg/manager/runnable_group.go runnables.Add: *Server, hasCache and webhook.Server first - the harness asserts the real "
+            "objects are none of these - then LeaderElectionRunnable/NeedLeaderElection) is re-stated in the harness and applied to "
+            "the real objects, not called (runnables.Add is unexported); no real manager is started",
+            "translator in the trusted base: the go/ast resolver of zz_verif_c09wire_test.go over manager.go. It looks at calls "
+            "mgr.Add(e) with the receiver spelled mgr, in any function of that one file, and understands exactly these shapes of e: "
+            "&runnables.Leader{Runnable: E} and &runnables.LeaderOrNonLeader{Runnable: E} (keyed, or a single positional element); "
+            "runnables.NewEnableAfterBecameLeader(A) (payload = printed A, an identifier A replaced by its single definition); "
+            "runnables.NewCronJob(...); f(...) with f declared in manager.go (first result of its return statements, nil skipped, "
+            "all must agree); any other call pkg.F(...) / F(...) without a function literal among its arguments = opaque leaf "
+            "(its type is known to the harness only for events.NewEventLoop and manager.RunnableFunc; another opaque leaf is accepted "
+            "only under a wrapper, where it cannot influence the group); an identifier = the right-hand sides assigned to it in the "
+            "enclosing function before the use (x := E, x = E, x, err := f(...), var x = E; all must agree); parentheses. "
+            "'runnables'/'status'/'events' are recognised by import path, not by local name. Any other shape (function literal, "
+            "field or index expression, parameter, value instead of pointer literal, other composite types, disagreeing "
+            "definitions, nesting deeper than 16) is reported as not resolved and C09/Wire.v answers code 1 - it is never skipped; "
+            "so is an eventHandlerConfig literal that is missing, duplicated, or whose statusUpdater is not an identifier with a "
+            "single definition, and any use of a selector .Enable outside a resolved registration whose receiver is the handler's "
+            "identifier or is defined by status.NewLeaderAwareGroupUpdater",
+            "not seen by the translator: aliases (y := groupStatusUpdater; y.Enable), Enable reached through other files or through "
+            "reflection, runnables registered from other files, a manager variable not spelled mgr (then no registration of Enable "
+            "is found and the oracle fails), and the body of handler.go: that the handler writes statuses only through "
+            "cfg.statusUpdater.UpdateGroup is not checked here (the whole-pipeline harness zz_verif_pipe_test.go used by C01/C17 "
+            "injects a recording updater through that field and sees the statuses there, which is evidence, not proof)",
         ],
-        assumptions=["mutex atomicity", "flush order over the Go map is an arbitrary permutation (theorem quantifies over it)"],
+        assumptions=[
+            "mutex atomicity", "flush order over the Go map is an arbitrary permutation (theorem quantifies over it)",
+            "wiring theorems: the manager is the state machine of coq/C09/Wire.v (events Start and Elected, Elected effective once and "
+            "only after Start); C09_wiring_* quantify over every wiring that passes check_case, every event trace and every "
+            "interleaving with UpdateGroup submissions; the current manager.go is tied to them by the evaluated case only",
+        ],
     )
